@@ -125,6 +125,9 @@ type Event struct {
 	Boundary int    `json:"boundary,omitempty"` // before Step number Boundary (0-based) when AtTick==0 && !OnRet
 	AtTick   uint64 `json:"at_tick,omitempty"`  // from inside the device callback of access number AtTick (1-based)
 	OnRet    bool   `json:"on_ret,omitempty"`   // on the next RETI/RETN notification
+	// Force: a device that does not look before it writes - cpu.Interrupt is overwritten at AtTick
+	// whatever it holds (also in the middle of an acceptance). Twin-based checks only.
+	Force bool `json:"force,omitempty"`
 }
 
 // Request converts the event to the library's request value.
